@@ -15,8 +15,11 @@
     thorough adds deeper instances and -simulate behaviours.
  3. code -> spec: seeded random long runs (about 20 packets, 1-3 senders, MTU sweep up to 4096, loss / duplication /
     reordering or perfect), TunAbs monitor on all of them, the event logs of a subset validated by TLC (TunAbsTrace.tla).
- 4. directed cases: known finding F15; the inputs of the repaired findings F31 and F32; id wrap-around at 2^32 and 2^24;
-    the id-collision hole (assumption).
+ 4. directed cases: known findings F15 and F44 (zlib-encoding slave: dependent deflate); the inputs of the repaired findings F31
+    and F32; two senders with equal ids and sizes whose fragments are read by ONE DoInput() call; id wrap-around at 2^32 and
+    2^24; the id-collision hole (assumption).
+ The receiver's socket may hold several packets of several senders for one DoInput() call (Net.tla: rxq, MaxBatch; actions Arrive /
+ Deliver / ReadWaiting); the scripted PacketDataIO of the harness reports every packet's own source address.
 """
 import concurrent.futures as cf, json, os, re, threading, time
 import vlib, pathcover
